@@ -654,6 +654,7 @@ def run(chk):
     _vmrange_rule(chk)
     from rules import c14_boot
     c14_boot.cmpdecline(chk)
+    _signpun_rule(chk)
     _scanrange_rule(chk)
     _variadicloop_rule(chk, tu)
     _u64range_rule(chk, tu)
@@ -759,3 +760,54 @@ def _u64range_rule(chk, tu):
                               "`%s` converts a number that was not tested against [0, 2^64): negative whole numbers become huge unsigned "
                               "values instead of raising" % x.text()[:50])
     chk.floor(rule, 1, len(rets))
+
+
+def _signpun_rule(chk):
+    """An int/u64 with its top bit set has no int64_t value, and a negative int/s64 no uint64_t one.  Mixed
+    comparisons therefore split those cases off explicitly before they compare like with like.  Handing the address of
+    one kind to a helper written for the other (a pointer conversion the C compiler only warns about) reinterprets the
+    bits instead: 2^63 compares below every non-negative int/s64."""
+    rule = "C14-SIGNPUN"
+    chk.rule(rule, "inttypes.c never passes the address of a uint64_t where an int64_t * is expected, or the reverse")
+    prog = Program.load("default", units=["inttypes.c"])
+    tu = prog.tus["inttypes.c"]
+    n = 0
+
+    def base(t):
+        return (t or "").replace("const ", "").replace(" ", "")
+    for fn in tu.funcs.values():
+        for c in fn.nodes:
+            if c.k != "call" or not c.callee or c.callee not in tu.funcs:
+                continue
+            g = tu.funcs[c.callee]
+            for i, a in enumerate(c.args):
+                if i >= len(g.params):
+                    continue
+                pt = base(g.params[i]["t"])
+                if pt == "void*":
+                    # what the helper takes the pointer for: its own cast of that parameter
+                    views = set(base(x.t) for x in g.nodes if x.k == "cast" and x.kids and is_ref(strip_casts(x.kids[0]))
+                                and strip_casts(x.kids[0]).name == g.params[i]["n"] and base(x.t) in ("int64_t*", "uint64_t*"))
+                    if len(views) == 1:
+                        pt = views.pop()
+                if pt not in ("int64_t*", "uint64_t*"):
+                    continue
+                inner = strip_casts(a)
+                at = base(inner.t)
+                if inner.k == "un" and inner.op == "&" and inner.kids:
+                    at = base(inner.kids[0].t) + "*"
+                if at not in ("int64_t*", "uint64_t*"):
+                    continue
+                n += 1
+                chk.instance(rule)
+                chk.analysed(fn)
+                if at == pt:
+                    chk.ok(rule, "%s: %s(%s) - %s" % (fn.name, c.callee, inner.text()[:16], at))
+                else:
+                    chk.violation(rule, "inttypes.c", fn.name, "%s:%s" % (c.callee, inner.text().replace(" ", "")[:16]), c.loc,
+                                  "%s passes `%s` (%s) to %s, whose parameter is %s: the 64 bits are reinterpreted with the other signedness, so an "
+                                  "int/u64 of 2^63 or more is taken for a negative number and orders below every non-negative int/s64" % (
+                                      fn.name, inner.text()[:30], at, c.callee, pt))
+    if n == 0:
+        chk.note("%s: no call hands a 64-bit integer's address to a typed helper at present" % rule)
+    chk.floor(rule, 0, n)
